@@ -1,6 +1,7 @@
 package main
 
 import (
+	"bytes"
 	"fmt"
 	"math"
 
@@ -274,6 +275,81 @@ func c12RunSolverP(si int, gen *genetics.Genome, input []float64, depth int, per
 	return solver.ReadOutputs(), nil
 }
 
+// c12FastVariant obtains the fast solver another way - how 1: the derived solver written with WriteModel
+// and read back with ReadFMNSModel; how 2: constructed directly through NewFastModularNetworkSolver
+// with the bias links as ordinary connections - flushes it first (a solver that is reused is flushed
+// before every evaluation) and evaluates one input vector.
+func c12FastVariant(how, si int, sp *GenomeSpec, input []float64, depth int) (outs []float64, err error) {
+	defer func() {
+		if r := recover(); r != nil {
+			err = fmt.Errorf("panic: %v", r)
+		}
+	}()
+	var solver network.Solver
+	switch how {
+	case 1:
+		net, err := sp.Build().Genesis(1)
+		if err != nil {
+			return nil, err
+		}
+		fs, err := net.FastNetworkSolver()
+		if err != nil {
+			return nil, err
+		}
+		var buf bytes.Buffer
+		if err = fs.(*network.FastModularNetworkSolver).WriteModel(&buf); err != nil {
+			return nil, err
+		}
+		if solver, err = network.ReadFMNSModel(bytes.NewReader(buf.Bytes())); err != nil {
+			return nil, err
+		}
+	case 2:
+		idx := map[int]int{}
+		var acts []neatmath.NodeActivationType
+		counts := map[network.NodeNeuronType]int{}
+		for _, role := range []network.NodeNeuronType{network.BiasNeuron, network.InputNeuron, network.OutputNeuron, network.HiddenNeuron} {
+			for _, n := range sp.Nodes {
+				if n.Role == role {
+					idx[n.ID] = len(acts)
+					acts = append(acts, n.Act)
+					counts[role]++
+				}
+			}
+		}
+		var conns []*network.FastNetworkLink
+		for _, g := range sp.Genes {
+			if g.En {
+				conns = append(conns, &network.FastNetworkLink{SourceIndex: idx[g.In], TargetIndex: idx[g.Out], Weight: g.W})
+			}
+		}
+		solver = network.NewFastModularNetworkSolver(counts[network.BiasNeuron], counts[network.InputNeuron], counts[network.OutputNeuron], len(acts), acts, conns, make([]float64, len(acts)), nil)
+	}
+	if _, err = solver.Flush(); err != nil {
+		return nil, err
+	}
+	if err = solver.LoadSensors(input); err != nil {
+		return nil, err
+	}
+	res := true
+	switch si {
+	case 3:
+		res, err = solver.ForwardSteps(depth)
+	case 5:
+		res, err = solver.RecursiveSteps()
+	case 6:
+		_, err = solver.Relax(depth+3, 5e-324)
+	}
+	if err != nil {
+		return nil, err
+	}
+	if !res {
+		return nil, fmt.Errorf("solver reported failure")
+	}
+	return solver.ReadOutputs(), nil
+}
+
+var c12HowNames = []string{"", " [restored from its written model, flushed before use]", " [constructed directly, bias links as connections, flushed before use]"}
+
 func c12Eval(cs c12Case) (fails [][2]string, excluded, skipped bool, depth int) {
 	g, _ := cs.spec()
 	if len(g.Genes) == 0 {
@@ -319,6 +395,28 @@ func c12Eval(cs c12Case) (fails [][2]string, excluded, skipped bool, depth int) 
 			if !relClose(got[i], want[i], 1e-11) && math.Abs(got[i]-want[i]) > 1e-13 {
 				fails = append(fails, [2]string{name + "/value", fmt.Sprintf("%s output %d = %.17g, topological evaluation gives %.17g", name, i, got[i], want[i])})
 				break
+			}
+		}
+	}
+	if len(g.Modules) == 0 {
+		for how := 1; how <= 2; how++ {
+			for _, si := range []int{3, 5, 6} {
+				name := c12Solvers[si] + c12HowNames[how]
+				got, err := c12FastVariant(how, si, g, cs.Input, depth)
+				if err != nil {
+					fails = append(fails, [2]string{name + "/error", fmt.Sprintf("%s failed: %v", name, err)})
+					continue
+				}
+				if len(got) != len(want) {
+					fails = append(fails, [2]string{name + "/arity", fmt.Sprintf("%s returned %d outputs, want %d", name, len(got), len(want))})
+					continue
+				}
+				for i := range want {
+					if !relClose(got[i], want[i], 1e-11) && math.Abs(got[i]-want[i]) > 1e-13 {
+						fails = append(fails, [2]string{name + "/value", fmt.Sprintf("%s output %d = %.17g, topological evaluation gives %.17g", name, i, got[i], want[i])})
+						break
+					}
+				}
 			}
 		}
 	}
